@@ -728,54 +728,88 @@ func c03SortMounts(c *Ctx) {
 		}
 	}
 	r.Check("C03.4", "stable-sort", stable && len(sorts) == 1, c.U.Pos(fn.Pos()), fmt.Sprintf("sortMounts uses exactly one, stable, sort (found %v): equally deep mounts keep their order", sorts))
-	less := c.fn("C03.4", "cdi", "(orderedMounts).Less")
-	if less != nil {
-		ok := false
-		for _, ret := range ir.NormalReturns(less) {
-			if b, isBin := ret.Results[0].(*ssa.BinOp); isBin && b.Op == token.LSS {
-				cx, okx := b.X.(*ssa.Call)
-				cy, oky := b.Y.(*ssa.Call)
-				if okx && oky && c.U.CalleeIs(cx, "cdi", "(orderedMounts).parts") && c.U.CalleeIs(cy, "cdi", "(orderedMounts).parts") &&
-					len(cx.Call.Args) == 2 && len(cy.Call.Args) == 2 && cx.Call.Args[1] == ssa.Value(less.Params[1]) && cy.Call.Args[1] == ssa.Value(less.Params[2]) {
-					ok = true
-				}
+	// the ordering: the function the sort consults - Less of the sorted type for sort.Stable, the
+	// closure for sort.SliceStable - compares the depths of its two elements strictly; depth =
+	// number of separators in the cleaned destination (helpers such as parts() are expanded)
+	var less *ssa.Function
+	for _, call := range ir.Calls(fn) {
+		f := call.Common().StaticCallee()
+		if f == nil {
+			continue
+		}
+		switch f.String() {
+		case "sort.Stable":
+			arg := call.Common().Args[0]
+			if mi, ok := arg.(*ssa.MakeInterface); ok {
+				arg = mi.X
+			}
+			if m := c.U.Prog.LookupMethod(arg.Type(), fn.Pkg.Pkg, "Less"); m != nil {
+				less = m
+			}
+		case "sort.SliceStable":
+			for _, lf := range c.U.FuncValues(call.Common().Args[1]) {
+				less = lf
 			}
 		}
-		r.Check("C03.4", "less-strict", ok && len(ir.NormalReturns(less)) == 1, c.U.Pos(less.Pos()), "Less(i,j) is parts(i) < parts(j): strict, so equal depths are 'not less' both ways")
 	}
-	parts := c.fn("C03.4", "cdi", "(orderedMounts).parts")
-	if parts != nil {
-		okCount, okClean, okDest, okSep := false, false, false, false
-		for _, call := range ir.Calls(parts) {
-			f := call.Common().StaticCallee()
-			if f == nil {
-				continue
-			}
-			switch f.String() {
-			case "strings.Count":
-				okCount = true
-				if cl, ok := call.Common().Args[0].(*ssa.Call); ok && cl.Call.StaticCallee() != nil && cl.Call.StaticCallee().String() == "path/filepath.Clean" {
-					okClean = true
-					if c.hasPathSuffix(cl.Call.Args[0], "*", "Destination") {
-						okDest = true
-					}
-				}
-				if s, ok := ir.ConstString(call.Common().Args[1]); ok && s == "/" {
-					okSep = true
-				} else if cv, ok := call.Common().Args[1].(*ssa.Convert); ok {
-					if i, ok := ir.ConstInt(cv.X); ok && (i == '/' || i == '\\') {
-						okSep = true
-					}
-				}
-			}
-		}
-		for _, ret := range ir.NormalReturns(parts) {
-			if call, ok := ret.Results[0].(*ssa.Call); !ok || call.Call.StaticCallee() == nil || call.Call.StaticCallee().String() != "strings.Count" {
-				okCount = false
-			}
-		}
-		r.Check("C03.4", "depth", okCount && okClean && okDest && okSep, c.U.Pos(parts.Pos()), "depth of a mount = number of path separators in the cleaned destination")
+	if less == nil || len(less.Params) < 2 {
+		r.Undecided("C03.4", "less-strict", c.U.Pos(fn.Pos()), "the comparison function of the sort could not be identified")
+		return
 	}
+	np := len(less.Params)
+	ip, jp := less.Params[np-2], less.Params[np-1]
+	// a comparison function that only forwards to another one of the repository
+	for depth := 0; depth < 3; depth++ {
+		rets := ir.NormalReturns(less)
+		if len(rets) != 1 {
+			break
+		}
+		call, isCall := ir.ReturnResult(rets[0], 0).(*ssa.Call)
+		if !isCall {
+			break
+		}
+		g := c.U.StaticCallee(call)
+		if g == nil || !c.U.IsRepoFunc(g) || len(g.Params) != len(call.Call.Args) {
+			break
+		}
+		var ni, nj *ssa.Parameter
+		for k, a := range call.Call.Args {
+			if a == ssa.Value(ip) {
+				ni = g.Params[k]
+			}
+			if a == ssa.Value(jp) {
+				nj = g.Params[k]
+			}
+		}
+		if ni == nil || nj == nil {
+			break
+		}
+		less, ip, jp = g, ni, nj
+	}
+	pi, pj := "$"+ip.Name(), "$"+jp.Name()
+	ok, okDepth := false, false
+	rets := c.exprReturns0(less)
+	if len(rets) == 1 {
+		res := rets[0]
+		m := lessRe.FindStringSubmatch(res)
+		if m != nil {
+			ok = m[1] == m[4] && m[2] == pi && m[5] == pj
+			okDepth = (m[3] == `"/"` || m[3] == `"\\"`) && m[6] == m[3]
+		}
+	}
+	r.Check("C03.4", "less-strict", ok, c.U.Pos(less.Pos()), "Less(i,j) is depth(i) < depth(j) on the elements i and j of the sorted list: strict, so equal depths are 'not less' both ways")
+	r.Check("C03.4", "depth", ok && okDepth, c.U.Pos(less.Pos()), "depth of a mount = number of path separators in the cleaned destination")
+}
+
+var lessRe = regexp.MustCompile(`^\(strings\.Count\(path/filepath\.Clean\((.+)\[(\$\w+)\]\.Destination\),(".+")\) < strings\.Count\(path/filepath\.Clean\((.+)\[(\$\w+)\]\.Destination\),(".+")\)\)$`)
+
+// exprReturns0 lists the first result of every normal return as an expression (parameters by name).
+func (c *Ctx) exprReturns0(fn *ssa.Function) []string {
+	var out []string
+	for _, ret := range ir.NormalReturns(fn) {
+		out = append(out, c.exprDesc(ir.ReturnResult(ret, 0)))
+	}
+	return out
 }
 
 // c03FillMissing checks how host stat results are mapped (unix builds).
